@@ -43,10 +43,134 @@ def cell_rec(row):
     return [[ord(g[0]), list(fg), list(bg), sorted(at)] for g, fg, bg, at, lk in cs]
 
 
+# ---------------------------------------------------------------------------------------------------
+# the stateful half: which language colours a hunk line (Impl_Stream fields syn / hl / sy)
+import re
+
+SYN_PAYLOAD = lambda k, c: f'FROM tokZ{k}Z = "s" # if (x) $(CC) // let def'
+SYN_ARGS = ["--no-gitconfig", "--true-color", "always", "--dark", "--syntax-theme", "Monokai Extended", "--width", "120",
+            "--minus-style", "syntax 52", "--minus-emph-style", "syntax 88", "--minus-non-emph-style", "syntax 52",
+            "--plus-style", "syntax 22", "--plus-emph-style", "syntax 28", "--plus-non-emph-style", "syntax 22",
+            "--zero-style", "syntax", "--file-style", "yellow", "--hunk-header-style", "omit"]
+# file ids -> names: different extensions; whole-name languages without extension; whole name vs extension;
+# the same language twice; no extension at all; a directory that looks like an extension; a four-byte name
+NAME_SKINS = {
+    "rs-py": {"names": {1: "alphaZ1Z.rs", 2: "betaZ2Z.py", 3: "gammaZ3Z.c"}},
+    "Makefile-Dockerfile": {"names": {1: "Makefile", 2: "Dockerfile", 3: "Rakefile"}},
+    "CMakeLists-txt": {"names": {1: "CMakeLists.txt", 2: "notesZ2Z.txt", 3: "gammaZ3Z.rs"}},
+    "rs-RS": {"names": {1: "alphaZ1Z.rs", 2: "betaZ2Z.rs", 3: "gammaZ3Z.py"}},
+    "noext-py": {"names": {1: "alphaZ1Znoext", 2: "betaZ2Z.py", 3: "gammaZ3Z.js"}},
+    "dir-like-ext": {"names": {1: "alphaZ1Z.rs", 2: "betaZ2Z.js", 3: "gammaZ3Z.c"}, "dir": "src.py/pkg.rb"},
+    "short": {"names": {1: "Make", 2: "betaZ2Z.mk", 3: "gammaZ3Z.c"}},
+}
+_TOK = re.compile(r"tokZ(\d+)Z")
+
+
+def syn_signature(row):
+    """(k, signature) of an output row that shows a payload line, else None.  The signature is the
+    sequence of (foreground, text) runs over the payload's cells, the line's own number masked."""
+    cs, pen = lexer.cells(lexer.tokens(row))
+    text = "".join(c[0] for c in cs)
+    i = text.find("FROM tokZ")
+    m = _TOK.search(text)
+    if i < 0 or not m:
+        return None
+    runs = []
+    for g, fg, bg, at, lk in cs[i:]:
+        if runs and runs[-1][0] == tuple(fg):
+            runs[-1][1] += g
+        else:
+            runs.append([tuple(fg), g])
+    sig = tuple((fg, _TOK.sub("tokZ#Z", t).rstrip()) for fg, t in runs)
+    sig = tuple(x for x in sig if x[1] != "")
+    return int(m.group(1)), sig
+
+
+def syn_reference(name):
+    """How a one-file diff of `name` colours the payload (added, removed and unchanged line)."""
+    pay = SYN_PAYLOAD(7, "")
+    head = f"diff --git a/{name} b/{name}\nindex 1..2 100644\n--- a/{name}\n+++ b/{name}\n@@ -1,2 +1,2 @@\n" if name else \
+           "diff --git a/zzzZ.unknownext b/zzzZ.unknownext\nindex 1..2 100644\n--- a/zzzZ.unknownext\n+++ b/zzzZ.unknownext\n@@ -1,2 +1,2 @@\n"
+    r = core.run_delta(SYN_ARGS, (head + f" {pay}\n-{pay}\n+{pay}\n").encode(), prefix_args=("--paging", "never"))
+    sigs = [x[1] for x in map(syn_signature, r.out.split(b"\n")) if x]
+    if len(sigs) != 3 or len(set(sigs)) != 1:
+        raise core.ToolError(f"reference colouring for {name!r} is not line-local: {sigs}")
+    return sigs[0]
+
+
+def stream_part(tier, V, rnd):
+    design = {}
+    for cfg, mod in (("MC_Stream_" + tier, "MC_Stream"), ("MC_DiffU_bare", "MC_DiffU")):
+        mc = tlc.run_tlc(mod, cfg=cfg, workers=8, coverage=False, heap="8g", timeout=3400)
+        tlc.require_ok(mc, cfg)
+        if mc.violated:
+            V.drift.append(f"module=Impl_Stream design-level invariant {mc.violated} violated in {cfg}")
+        design[cfg] = mc.distinct
+    reg = tlc.run_tlc("MC_Stream", cfg="MC_Stream_noD20", workers=4, coverage=False, timeout=600)
+    if reg.violated != "LanguageByName":
+        raise core.ToolError("regression config MC_Stream_noD20 did not violate LanguageByName: design-level check is vacuous")
+    hists = []
+    for cfg, mod in (("Cover_Stream", "Cover_Stream"), ("Cover_Stream_sub", "Cover_Stream"), ("Cover_DiffU_bare", "Cover_DiffU"),
+                     ("Cover_DiffU_titled", "Cover_DiffU")):
+        h, st = stream.cover_histories(pairs=False, cfg=cfg, module=mod)
+        hists += [x for x in h if any(l["c"] in ("minus", "plus", "zero") for l in x)]
+    per = 1500 if tier == "quick" else len(hists)
+    jobs = []
+    refs = {}
+    for name, skin in NAME_SKINS.items():
+        refs[name] = {0: syn_reference("")}
+        for fid, nm in skin["names"].items():
+            refs[name][fid] = syn_reference((skin.get("dir") + "/" if skin.get("dir") else "") + nm)
+        for h in (hists if name == "rs-py" else rnd.sample(hists, min(per, len(hists)))):
+            jobs.append((name, h))
+
+    def one(job):
+        name, h = job
+        data, texts = gitskin.concretise(h, payload=SYN_PAYLOAD, skin=NAME_SKINS[name])
+        r = core.run_delta(SYN_ARGS, data)
+        obs = []
+        for row in r.out.split(b"\n"):
+            x = syn_signature(row)
+            # (only lines whose text is the payload itself: a look-alike line "--- x" carries it after "-- ")
+            if x and 1 <= x[0] <= len(h) and h[x[0] - 1]["c"] in ("minus", "plus", "zero"):
+                obs.append({"k": x[0], "hl": [fid for fid, sig in sorted(refs[name].items()) if sig == x[1]]})
+        return data, r, obs
+
+    res = core.pmap(one, jobs)
+    events = []
+    for i, ((name, h), (data, r, obs)) in enumerate(zip(jobs, res)):
+        if r.code != 0:
+            V.violation(f"exit:{name}:{stream.shape(h)[:200]}", f"delta exited {r.code} on [{stream.shape(h)[:160]}]", {"run": r.to_json()})
+            continue
+        events.append({"run": i, "lines": [{"c": l["c"], "f": l["f"], "g": l["g"], "kd": l.get("kd", "")} for l in h], "obs": obs})
+    n_sh = max(1, min(6, len(events) // 2000 + 1))
+    outs = core.pmap(lambda ch: tlc.validate_trace("Trace_Syntax", ch, heap="3g"), [events[i::n_sh] for i in range(n_sh)], jobs=n_sh)
+    failed = [f for fl, r in outs for f in fl]
+    drifts = [x for fl, r in outs for t, v in r.printed if t == "DRIFT" for x in (v if isinstance(v, list) else [])]
+    unseen = [f for f in failed if f["why"] != "language"]
+    if len(unseen) > len(events) // 50:
+        raise core.ToolError(f"{len(unseen)} runs in which a hunk line was not located in the output")
+    for d in drifts[:5]:
+        V.drift.append(f"module=Impl_Stream language of a hunk line: names={jobs[d][0]} history=[{stream.shape(jobs[d][1])[:160]}]")
+    log(f"[{PID}] {len(events)} runs judged by TLC (Trace_Syntax): {len(failed) - len(unseen)} rejected, {len(drifts)} drift")
+    for f in failed:
+        if f["why"] != "language":
+            continue
+        name, h = jobs[f["run"]]
+        data, r, obs = res[f["run"]]
+        got = next((o["hl"] for o in obs if o["k"] == f["k"]), None)
+        V.violation(f"language:{name}:{stream.shape(h)[:300]}",
+                    f"language: input line {f['k']} of [{stream.shape(h)[:160]}] (names {NAME_SKINS[name]['names']}) is coloured in the "
+                    f"language of file id(s) {got}, its own file is {f['want']}", {"history": h, "names": name, "run": r.to_json()})
+    return {"design_states": design, "stream_runs": len(events), "stream_histories": len(hists), "regression_model_rejected": reg.violated,
+            "name_skins": {k: v["names"] for k, v in NAME_SKINS.items()}, "drift": len(drifts)}
+
+
 def run(tier):
     t0 = time.time()
     V = core.Verdict(PID)
     rnd = random.Random(core.seed())
+    sp = stream_part(tier, V, rnd)
     jobs = []
     n = 120 if tier == "quick" else 1500
     for i in range(n):
@@ -58,8 +182,31 @@ def run(tier):
         kind = ["themes", "none", "rename"][i % 3]
         jobs.append((i, a, b, lang, mode, t1, t2, kind, "always" if i % 4 else "never"))
 
+    # blame input: code painted with a configured style that does not ask for 'syntax' (background 52)
+    # next to code that does; theme vs another theme / none
+    nb = 24 if tier == "quick" else 240
+    for i in range(n, n + nb):
+        r2 = random.Random(core.seed() * 2477 + i)
+        pool = DARK if i % 3 else LIGHT
+        t1, t2 = r2.sample(pool, 2)
+        jobs.append((i, "", "", r2.choice(["rs", "py"]), ["blame", "blame-syntax"][i % 2], t1, t2, ["themes", "none"][(i // 2) % 2],
+                     "always" if i % 4 else "never"))
+
+    def other_input(mode, lang, r2):
+        lines = [x for x in CODE[lang] if x]
+        if mode.startswith("blame"):
+            return "".join(f"{'%08x' % r2.randrange(16 ** 8)} (Author Name{j % 2}       2021-08-22 18:20:19 -0700 {120 + j}) {r2.choice(lines)}\n"
+                           for j in range(5)).encode(), \
+                   ["--default-language", lang] + (["--blame-code-style", "bold red 52"] if mode == "blame" else ["--blame-code-style", "syntax 22"])
+        raise core.ToolError("unknown mode " + mode)
+
     def one(job):
         i, a, b, lang, mode, t1, t2, kind, tc = job
+        if mode not in MODES:
+            data, extra = other_input(mode, lang, random.Random(i))
+            base = ["--no-gitconfig", "--true-color", tc, "--dark" if t1 in DARK else "--light", "--width", "120"] + extra
+            return (core.run_delta(base + ["--syntax-theme", t1], data),
+                    core.run_delta(base + ["--syntax-theme", t2 if kind == "themes" else "none"], data))
         r2 = random.Random(core.seed() * 2477 + i)
         r2.random()
         base = ["--no-gitconfig", "--true-color", tc, "--dark" if t1 in DARK else "--light"] + STYLES + MODES[mode]
@@ -106,11 +253,15 @@ def run(tier):
     core.write_evidence(PID, tier, "model_checking", {
         "states": tr.distinct, "transitions": tr.generated, "traces_validated_against_impl": len(events),
         "evaluations": len(events) * 2, "distinct_nontrivial": len({json.dumps(j[1:]) for j in jobs}),
-        "rule": "seeded hunks of Rust, Python, Makefile and plain-text code under styles with and without 'syntax' in three modes and two "
+        "rule": "design level: Impl_Stream (syn / hl / sy) satisfies LanguageByName on every history of MC_Stream and MC_DiffU; the "
+                "transition-cover histories of Env_Git x Impl_Stream (git, submodule, diff -u sources) are replayed under seven "
+                "assignments of file names to the model's file ids and TLC (Trace_Syntax) checks that every hunk line is coloured in the "
+                "language of its own file's name; relational part: seeded hunks of Rust, Python, Makefile and plain-text code under styles with and without 'syntax' in three modes and two "
                 "colour depths; pairs: two themes of the same light/dark class, a theme vs none, a file vs another name of the same kind "
                 "(extension, whole-name Makefile, no extension); TLC compares the two renderings cell by cell: characters, backgrounds "
                 "and attributes equal, foreground equal where the style has no 'syntax' (all cells for renames)",
         "themes": DARK + LIGHT,
+        "language_state_machine": sp,
         "samples": [{"file": jobs[i][1], "mode": jobs[i][4], "themes": jobs[i][5:7], "kind": jobs[i][7]} for i in (0, 1, 2)],
         "exhaustive": False,
     }, time.time() - t0, len(V.violations),
